@@ -546,6 +546,103 @@ func privateFamily() Family {
 	}
 }
 
+// numberSweepFamily varies ONE numeric field at a time over a pool of values
+// chosen for how they print and parse: exponents in either direction, values
+// that need all 17 digits, values beyond int32/int53, denormals, negative
+// zero-ish fractions, the neighbourhood of documented defaults.
+func numberSweepFamily(dom Domain) Family {
+	floats := []float64{0, 1, -1, 0.5, -0.5, 0.001, -0.001, 1e-5, -1e-5, 1e-7, 123456.789, -98765.4321, 1e6, 1e7, 12345678,
+		1e15, 1e21, -1e21, 1.0 / 3, 0.1 + 0.2, 2147483648, -2147483649, 9007199254740993, 5e-324, 1.7976931348623157e308, 100, 250.25, 1e-300, 1e20, 123456789012}
+	// (values within 1e-6 of the default other than the default itself are outside
+	// this domain: the writer documents that it snaps them; C10 checks that)
+	blueScale := []float64{0.039625, 0.039625 + 2e-6, 0.039625 - 2e-6, 0.039625 + 1.0000001e-6, 0.03962, 0.0454545, 1e-5, 0.5, 0.1 + 0.2, 1.0 / 3, 3.9625e-2, 39625e-6}
+	ints := []int32{0, 1, -1, 7, 255, 256, 65535, 65536, -65536, 100000, 2147483647, -2147483648, 1000000000}
+	blues := [][]funit.Int16{
+		{0, 0}, {-1, 0}, {5, 5, 5, 5}, {-32768, -32768, 32767, 32767},
+		{-20, 0, 400, 410, 500, 510, 600, 615, 700, 712, 800, 820, 900, 901}, // 7 pairs: the format's maximum for BlueValues
+		{-300, -290, -250, -240, -200, -190, -150, -140, -100, -90},          // 5 pairs: the maximum for OtherBlues
+		{10, -10}, {700, 710, -10, 0}, {1, 2, 3, 4, 5, 6},
+	}
+	widths := []float64{0, 1, -1, 107, 108, -107, -108, 1131, 1132, -1131, -1132, 32000, -32000, 65535, 65536, 2147483647, -2147483648, 1000000, 999999}
+	if dom == DomainC08 {
+		widths = append(widths, 0.5, 0.49, -0.5, 107.5, 1131.5, 0.001, 1e-9, 2147483646.5)
+	}
+	stems := [][]funit.Int16{
+		{0, 0}, {100, 100}, {-21, 0}, {-20, -20}, {5, -5}, {32767, -32768}, {-32768, 32767},
+		{0, 10, 20, 30, 40, 50, 60, 70, 80, 90, 100, 110, 120, 130, 140, 150, 160, 170, 180, 190, 200, 210, 220, 230}, // 12 stems: fills the 24-entry charstring stack
+		{107, 108, 1131, 1132, -107, -108, -1131, -1132},                                                              // boundaries of the number encodings
+		{1, 2, 1, 2, 1, 2},
+	}
+	type field struct {
+		name string
+		n    int
+		set  func(f *type1.Font, k int)
+	}
+	fl := func(name string, pool []float64, set func(f *type1.Font, v float64)) field {
+		return field{name, len(pool), func(f *type1.Font, k int) { set(f, pool[k]) }}
+	}
+	fields := []field{
+		fl("ItalicAngle", floats, func(f *type1.Font, v float64) { f.ItalicAngle = v }),
+		fl("UnderlinePosition", floats, func(f *type1.Font, v float64) { f.UnderlinePosition = funit.Float64(v) }),
+		fl("UnderlineThickness", floats, func(f *type1.Font, v float64) { f.UnderlineThickness = funit.Float64(v) }),
+		fl("BlueScale", blueScale, func(f *type1.Font, v float64) { f.Private.BlueScale = v }),
+		fl("StdHW", floats, func(f *type1.Font, v float64) { f.Private.StdHW = v }),
+		fl("StdVW", floats, func(f *type1.Font, v float64) { f.Private.StdVW = v }),
+		{"BlueShift", len(ints), func(f *type1.Font, k int) { f.Private.BlueShift = ints[k] }},
+		{"BlueFuzz", len(ints), func(f *type1.Font, k int) { f.Private.BlueFuzz = ints[k] }},
+		{"BlueValues", len(blues), func(f *type1.Font, k int) { f.Private.BlueValues = append([]funit.Int16(nil), blues[k]...) }},
+		{"OtherBlues", len(blues), func(f *type1.Font, k int) {
+			f.Private.BlueValues = []funit.Int16{-10, 0, 500, 510}
+			f.Private.OtherBlues = append([]funit.Int16(nil), blues[k]...)
+		}},
+		fl("WidthX of A", widths, func(f *type1.Font, v float64) { f.Glyphs["A"].WidthX = v }),
+		fl("WidthY of A", widths, func(f *type1.Font, v float64) { f.Glyphs["A"].WidthX = 0; f.Glyphs["A"].WidthY = v }),
+		fl("WidthX and WidthY of A", widths, func(f *type1.Font, v float64) {
+			f.Glyphs["A"].WidthX = v
+			f.Glyphs["A"].WidthY = max(-v, -2147483648)
+			f.Glyphs["A"].WidthY = min(f.Glyphs["A"].WidthY, 2147483647)
+		}),
+		{"HStem of A", len(stems), func(f *type1.Font, k int) { f.Glyphs["A"].HStem = append([]funit.Int16(nil), stems[k]...) }},
+		{"VStem of A", len(stems), func(f *type1.Font, k int) { f.Glyphs["A"].VStem = append([]funit.Int16(nil), stems[k]...) }},
+		{"HStem and VStem of A", len(stems), func(f *type1.Font, k int) {
+			f.Glyphs["A"].HStem = append([]funit.Int16(nil), stems[k]...)
+			f.Glyphs["A"].VStem = append([]funit.Int16(nil), stems[(k+1)%len(stems)]...)
+		}},
+	}
+	for m := 0; m < 6; m++ {
+		m := m
+		fields = append(fields, fl(fmt.Sprintf("FontMatrix[%d]", m), floats, func(f *type1.Font, v float64) {
+			if v == 0 && (m == 0 || m == 3) {
+				v = 0.002 // a singular matrix is outside the domain
+			}
+			f.FontMatrix[m] = v
+		}))
+	}
+	total := 0
+	var names []string
+	for _, fd := range fields {
+		total += fd.n
+		names = append(names, fmt.Sprintf("%s(%d)", fd.name, fd.n))
+	}
+	return Family{
+		Name: "number-sweep",
+		N:    total,
+		Rule: "base font with ONE numeric field at a time set to every value of an adversarial pool (exponent forms in both directions, 17-digit values, beyond int32 and 2^53, denormal and largest float64, neighbourhood of the BlueScale default, int32/int16 extremes, blue arrays up to the format's maximum length, stem lists that fill the 24-entry charstring stack, widths at every number-encoding boundary): " + strings.Join(names, ", "),
+		Build: func(i int) *type1.Font {
+			f := Base()
+			f.Private = DefaultPrivate()
+			for _, fd := range fields {
+				if i < fd.n {
+					fd.set(f, i)
+					return f
+				}
+				i -= fd.n
+			}
+			panic("number-sweep: index out of range")
+		},
+	}
+}
+
 func infoNumberFamily() Family {
 	italic := []float64{0, -12.5, 1e-7, 123456789, 1e21}
 	upos := []float64{0, -100, -75.5}
@@ -780,6 +877,7 @@ func Families(tier string, dom Domain) []Family {
 		manyGlyphsFamily(),
 		curveFormsFamily(),
 		bigFontFamily(),
+		numberSweepFamily(dom),
 	}
 	if tier == "thorough" {
 		fams[3] = pathLengthFamily(120)
